@@ -2,14 +2,14 @@
 PROPS["C13"] = dict(
     props_file="Properties/C13.v",
     harnesses=[dict(cmd="task", mod="root", model="Model.Task", quick=600, thorough=30000, shard=100,
-                    require=["op.invoke", "op.invoke.manual", "op.invoke.prompt", "op.prio", "op.done", "op.silence", "op.finish",
+                    require=["op.invoke", "op.invoke.manual", "op.invoke.prompt", "op.prio", "op.done", "op.silence", "op.finish", "op.fast",
                              "conc.1", "conc.2", "conc.3",
                              "ev.acquire", "ev.decide", "ev.start", "ev.cancel", "ev.join", "ev.finish", "ev.release", "ev.return",
                              "ev.prio-begin", "ev.prio-end", "ev.prio-dec", "ev.body-done",
                              "result.retry", "result.decide.defer", "result.body.cancelled", "result.body.completed"])],
     rule="scripted schedules on the real task.BackgroundTaskManager (concurrency 1..3, up to 4 concurrent invocations whose bodies "
          "finish / react to cancellation only when the script says so (manual) or on cancellation (prompt), up to 3 overlapping prioritized "
-         "begin/end pairs, silence periods ended by the script); the manager's decisions are recorded through the verif hooks in its own lock order; "
+         "begin/end pairs, silence periods ended by the script, each op either followed by a settle or racing with the manager's goroutines); the manager's decisions are recorded through the verif hooks in its own lock order; "
          "non-trivial = at least one cancellation and >= 2 invocations; distinct = distinct (concurrency, event trace)",
     assumptions=[
         "sync.Mutex, sync.Cond (no lost wake-up: the counter is re-read under the cond lock before Wait, Broadcast is sent under it after the decrement), "
